@@ -11,6 +11,11 @@ CHECKS = {
    text="Seeded search over session histories: each base history of succeeding inputs is executed on the real interpreter with and without side-effect-free failing inputs (language error, Go runtime panic in a function, depth overflow, deadline at a PRNG-chosen virtual tick, injected allocation refusal, writer error) inserted at random positions/multiplicities; every later input must produce identical output/value/outcome (and identical tick count with the cache off), and final globals must agree. Sampling, not proof.",
    note="Trusts the harness generator's construction of side-effect-free failing inputs and the virtual clock (1 tick per evaluated node) standing for real deadlines; error wording is not compared.",
    tech="deterministic simulation: seeded session histories + injected cancellation/allocation/writer faults, differential against the fault-free history of the same real code"),
+
+ "C05": dict(cat="exploration", ref="5.3",
+   text="Seeded search over multi-input session histories plus a deterministic sweep (parameter count 0..12 x loop depth 0..10 x exit kind): the same concrete history runs on the real interpreter with registers on and off and every input must give identical output/value/outcome class and identical final globals; deadline faults are addressed by the k-th execution of a planted marker so they hit the same program point in both modes. Recorded (not repaired) divergences about loop-variable scoping are re-observed by fixed probe histories and printed as KNOWN-FINDING.",
+   note="Generated programs avoid type()/info; loop variables get unique names in the random batch so the recorded loop-variable-scoping findings stay confined to their probes; error wording is not compared.",
+   tech="deterministic simulation: seeded session histories + marker-addressed cancellation, differential between NoReg=false/true of the same real code"),
 }
 
 NA = {
